@@ -5,3 +5,4 @@ import NormModel.Properties.C01
 #print axioms Norm.C01.token_col_le
 #print axioms Norm.C01.spacing_silent
 #print axioms Norm.C01.always_silent
+#print axioms Norm.C01.many_instr_silent
